@@ -18,8 +18,9 @@ TRUSTED = [
     "multi-digit moduli of bn_smb_jac (model executed and tied; theorem only for one-digit moduli and for the single-digit loop)",
     "primality ground truth: deterministic Miller-Rabin below 2^80 in the driver; above that only numbers with a supplied factor (composites) "
     "or parameter primes certified in C18 / well-known primes (Mersenne, Proth with recomputed witnesses) are presented",
-    "known findings of this property (listed, not repaired; the check prints KNOWN-FINDING): C09-ext-mod-1 (bn_mod_barrt / bn_mod_pmers non-canonical for negative operands), "
-    "C09-ext-mxp-1 (bn_mxp_sim ignores the sign of the exponents); the matchers compare the observed wrong value exactly",
+    "known finding of this property (listed, not repaired; the check prints KNOWN-FINDING): C09-ext-mxp-1 (bn_mxp_sim ignores the sign of the exponents); the matcher "
+    "compares the observed wrong value exactly. C09-ext-mod-1 (bn_mod_barrt / bn_mod_pmers non-canonical for negative operands) is repaired in /repo (060ee71): the models follow "
+    "the repaired code, the theorems hold for every integer a, and the formerly failing classes are presented in every run",
 ]
 ASSUMPTIONS = ["'rejects every composite presented' is decided on the presented corpus (Carmichael numbers, strong pseudoprimes, prime squares, "
                "products of close primes); it cannot be a theorem for a fixed-base test"]
@@ -205,11 +206,14 @@ def gen_lines(rng, w, cap, digs, n):
     return out
 
 
-# lines of the two known findings (negative operands of Barrett / pseudo-Mersenne reduction, negative exponents of bn_mxp_sim)
-FINDING_LINES = ["nt_mod barrt -5 5", "nt_mod barrt -a 5", "nt_mod barrt -3 5", "nt_mod pmers -7 7", "nt_mod pmers -e 7", "nt_mod barrt -1 ffffffffffffffffff",
-                 "nt_mxp_sim 2 -3 5 2 7", "nt_mxp_sim 2 3 5 -2 7", "nt_mxp_sim 3 -1 3 -1 7"]
+# lines of the known finding C09-ext-mxp-1 (negative exponents of bn_mxp_sim) and the replay lines of the repaired C09-ext-mod-1 (060ee71:
+# negative operands of every reduction — |a| < m, negative multiples of m — must give the residue in [0, m))
+FINDING_LINES = ["nt_mxp_sim 2 -3 5 2 7", "nt_mxp_sim 2 3 5 -2 7", "nt_mxp_sim 3 -1 3 -1 7"]
+NEG_REDUCTION_LINES = ["nt_mod %s %s %s" % (v, a, m) for v in ("barrt", "pmers", "basic", "mod")
+                       for a, m in (("-5", "5"), ("-a", "5"), ("-3", "5"), ("-7", "7"), ("-e", "7"), ("-1", "7"), ("-1", "ffffffffffffffffff"),
+                                    ("-ffffffffffffffffff", "ffffffffffffffffff"), ("-1fffffffffffffffffe", "ffffffffffffffffff"), ("-100", "100"), ("-ff", "100"))]
 
-CORPUS = FINDING_LINES + ["nt_rec win 4 1", "nt_rec win 2 0", "nt_inv -1 5", "nt_smb jac 4 5", "nt_smb jac 2 f", "nt_gcd_ext basic -c 12", "nt_gcd_ext lehme -c 12", "nt_gcd_ext binar c -12", "nt_gcd basic 0 0",
+CORPUS = FINDING_LINES + NEG_REDUCTION_LINES + ["nt_rec win 4 1", "nt_rec win 2 0", "nt_inv -1 5", "nt_smb jac 4 5", "nt_smb jac 2 f", "nt_gcd_ext basic -c 12", "nt_gcd_ext lehme -c 12", "nt_gcd_ext binar c -12", "nt_gcd basic 0 0",
           "nt_gcd_ext basic 0 5", "nt_inv 3 7", "nt_mxp basic 2 -1 7", "nt_mxp slide 0 0 7", "nt_rec naf 2 0", "nt_rec win 4 1", "nt_srt 0"]
 
 
@@ -267,13 +271,6 @@ def matches_finding(f, r):
     w = 8 if "w8" in r.get("cfg", "") else 64
     got = r.get("got", "")
     try:
-        if f.get("pred") == "barrt_pmers_neg_noncanonical" and t[0] == "nt_mod" and t[1] in ("barrt", "pmers"):
-            a, m = _int(t[2]), _int(t[3])
-            if not (a < 0 and m > 0):
-                return False
-            if a % m == 0 and got == _nf(m, w):                   # m instead of 0
-                return True
-            return t[1] == "barrt" and -a < m and got == _nf(a, w)   # the negative operand itself
         if f.get("pred") == "mxp_sim_neg_exponent_sign_ignored" and t[0] == "nt_mxp_sim":
             a, b, d, e, m = (_int(x) for x in t[1:6])
             if not (m > 1 and m % 2 == 1 and (b < 0 or e < 0)):
